@@ -189,6 +189,13 @@ Definition check41 (t : term) : term :=
                       | _, _ => false
                       end in
           let nontrivial := match m with Unm _ => false | _ => true end in
+          (* recorded finding: a struct key given twice, the second MAP is merged into the first one and
+             only each header is compared with the allocbound *)
+          let dupmerge := match m, out with
+                          | Unm 1, OOk v _ => negb (bounds_okb env s v) && bounds_gen env false s v
+                          | _, _ => false
+                          end in
+          if dupmerge then v_known "duplicate_key_map_merge_exceeds_allocbound" detail else
           verdict spec_ok corr nontrivial detail
       | None => v_parse
       end
